@@ -76,6 +76,45 @@ def diag_job(comm, shape, nprocs, eta_i, kind, dtype, out):
                     out[rk].append(("minmax", name, root, fix, float(mn), float(mx)))
 
 
+def minmax_history_job(comm, shape, nprocs, eta_i, out):
+    """getMin / getMax on ONE grid object across layout changes, save and restore: every report is that of the global field, whatever
+    the object was asked before and in whatever layout (a slice request repeated after restoreGridValues in particular)."""
+    from pygyro.model.grid import Grid
+    from pygyro.model.layout import getLayoutHandler
+    rk = comm.Get_rank()
+    eta = [np.array(x, dtype=float) for x in eta_i]
+    h = getLayoutHandler(comm, STD, list(nprocs), eta)
+    g = Grid(eta, [None] * 4, h, "flux_surface", comm, allocateSaveMemory=True)
+    g.getAllData()[:] = sl.local_block(field(shape, "tok", float), h.getLayout("flux_surface"))
+    fixes = ([(0, shape[0] - 1)], [(1, 0)], [(2, shape[2] // 2)], [(3, 0)], [(0, 0), (3, shape[3] - 1)], [])
+    root = comm.Get_size() - 1
+
+    def report(stage):
+        for fix in fixes:
+            if fix:
+                ax = [a for a, _ in fix] if len(fix) > 1 else fix[0][0]
+                fv = [b for _, b in fix] if len(fix) > 1 else fix[0][1]
+                mn, mx = g.getMin(root, ax, fv), g.getMax(root, ax, fv)
+            else:
+                mn, mx = g.getMin(root), g.getMax(root)
+            if rk == root:
+                out[rk].append(("minmax", stage, root, fix, float(mn), float(mx)))
+    import warnings
+    warnings.simplefilter("ignore")
+    report("flux_surface")
+    g.saveGridValues()
+    g.setLayout("poloidal")
+    report("poloidal while a save is held")
+    g.restoreGridValues()
+    report("after restoreGridValues (flux_surface)")
+    g.setLayout("v_parallel")
+    report("v_parallel after restore")
+    g.saveGridValues()
+    g.setLayout("flux_surface")
+    g.freeGridSave()
+    report("flux_surface after save / setLayout / free")
+
+
 def phi_job(comm, shape, nprocs, eta_i, kind, out):
     """3-D complex potential on the driver's swapper: l2 in every layout incl. the replicated ones."""
     from pygyro.model.grid import Grid
@@ -196,6 +235,18 @@ def run(ctx):
                             events.append({"k": "minmax", "kind": kind, "sh": shape, "fix": [[a + 1, b] for a, b in v[3]],
                                            "mn": int(round(v[4])), "mx": int(round(v[5])), "ok": bool(np.isfinite(v[4]) and np.isfinite(v[5]))})
                             meta.append(dict(m0, what="minmax", layout=v[1], root=v[2], fix=v[3]))
+        # min / max reports of one grid object through layout changes, save and restore
+        out = [[] for _ in range(n)]
+        res = MPI.run(n, minmax_history_job, policy=sched["policy"], seed=sched["seed"], eager=sched["eager"], args=(shape, nprocs, eta, out))
+        if not res.ok:
+            events.append({"k": "minmax", "kind": "tok", "sh": shape, "fix": [], "mn": 0, "mx": 0, "ok": False, "err": res.describe()})
+            meta.append(dict(m0, what="minmax-history"))
+        for o in out:
+            for v in o:
+                events.append({"k": "minmax", "kind": "tok", "sh": shape, "fix": [[a + 1, b] for a, b in v[3]],
+                               "mn": int(round(v[4])) if np.isfinite(v[4]) else 0, "mx": int(round(v[5])) if np.isfinite(v[5]) else 0,
+                               "ok": bool(np.isfinite(v[4]) and np.isfinite(v[5]))})
+                meta.append(dict(m0, what="minmax-history", stage=v[1], root=v[2], fix=v[3]))
         # 3-D potential on the swapper (replicated layouts: one replica set)
         out = [[] for _ in range(n)]
         res = MPI.run(n, phi_job, args=(shape[:3], nprocs, eta[:3], "tok", out), **sched)
